@@ -509,6 +509,465 @@ Proof.
          [LSubRelease 0; LPopen 0 true], 0, 0. split; [reflexivity|]. simpl; auto 10.
 Qed.
 
+(* ------------------------------------------------------------------ global invariant, deadlock-freedom *)
+
+Definition holding (p : spc_t) : bool :=
+  match p with SAppend | SStart | SRelease => true | _ => false end.
+Definition post_append (p : spc_t) : bool :=
+  match p with SStart | SRelease | SWait | SGot _ => true | _ => false end.
+
+Definition registered (st : state) (j : nat) : Prop :=
+  exists jb, nth_error (jobs st) j = Some jb /\ post_append (spc jb) = true.
+
+Record ginv (st : state) : Prop := {
+  g_jobs : Forall job_ok (jobs st);
+  g_hold : forall i jb, nth_error (jobs st) i = Some jb -> holding (spc jb) = true -> lock st = Some (OSub i);
+  g_sub  : forall i, lock st = Some (OSub i) -> exists jb, nth_error (jobs st) i = Some jb /\ holding (spc jb) = true;
+  g_canc : forall k s l, nth_error (sds st) k = Some s -> dpc s = DCancel l -> lock st = Some (OSd k);
+  g_sd   : forall k, lock st = Some (OSd k) -> exists s l, nth_error (sds st) k = Some s /\ dpc s = DCancel l;
+  g_reg  : forall j, In j (reg st) -> registered st j;
+  g_pend : forall k s l, nth_error (sds st) k = Some s -> (dpc s = DCancel l \/ dpc s = DJoin l) ->
+                         forall j, In j l -> registered st j
+}.
+
+Lemma step_lock st l st' :
+  step st l = Some st' ->
+  match l with
+  | LSubAcquire j => lock st = None /\ lock st' = Some (OSub j)
+  | LSubRelease _ => lock st' = None
+  | LSdAcquire k => lock st = None /\ lock st' = Some (OSd k)
+  | LSdReturn k => exists s, nth_error (sds st) k = Some s /\
+                     ((dpc s = DCancel [] /\ lock st' = None) \/ (dpc s = DJoin [] /\ lock st' = lock st))
+  | _ => lock st' = lock st
+  end.
+Proof.
+  destruct l; simpl; unfold on_job, on_sd; simpl; intros H.
+  all: step_inv; simpl in *; auto.
+  all: try (destruct (lock st); simpl in *; [discriminate | auto]; fail).
+  all: eexists; split; [reflexivity|]; auto.
+Qed.
+
+Lemma job_trans_spc fl l jb jb' :
+  job_trans fl l jb jb' ->
+  (post_append (spc jb) = true -> post_append (spc jb') = true) /\
+  holding (spc jb') = (match l with LSubAcquire _ => true | LSubRelease _ => false | _ => holding (spc jb) end) /\
+  (match l with
+   | LSubAcquire _ => holding (spc jb) = false
+   | LSubRelease _ => holding (spc jb) = true
+   | LSubAppend _ => post_append (spc jb') = true
+   | _ => True end).
+Proof.
+  unfold kill. destruct jb as [t s w p e o n]; destruct l; simpl; intros Ht; try contradiction.
+  all: try (destruct ok).
+  all: repeat match goal with H : _ /\ _ |- _ => destruct H end; subst; simpl in *.
+  all: try (destruct fl); try (destruct p; simpl in *); auto.
+  all: destruct s; simpl in *; auto.
+Qed.
+
+Lemma registered_step st l st' j : step st l = Some st' -> registered st j -> registered st' j.
+Proof.
+  intros H (jb & Hn & Hp). apply step_jobs in H. unfold registered. destruct (job_of l).
+  - destruct H as (jb0 & jb' & Hn0 & Hj & Ht). rewrite Hj, (nth_set_nth _ _ _ _ _ Hn0).
+    destruct (Nat.eqb_spec j n); eauto.
+    subst. rewrite Hn in Hn0; inversion Hn0; subst. eexists; split; eauto.
+    apply (job_trans_spc _ _ _ _ Ht); auto.
+  - rewrite H; eauto.
+Qed.
+
+Lemma remove1_In j l l' x : remove1 j l = Some l' -> In x l' -> In x l.
+Proof.
+  revert l'; induction l; simpl; intros l' H Hin; try discriminate.
+  destruct (Nat.eqb a j).
+  - inversion H; subst; auto.
+  - destruct (remove1 j l) eqn:E; try discriminate. inversion H; subst.
+    destruct Hin as [Hx|Hin]; [left; auto | right; eapply IHl; eauto].
+Qed.
+
+Lemma init_ginv tmos waits : ginv (init tmos waits).
+Proof.
+  constructor; simpl.
+  - apply init_jobs_ok.
+  - intros i jb Hn Hh. apply nth_error_In, in_map_iff in Hn. destruct Hn as (x & <- & _). discriminate.
+  - discriminate.
+  - intros k s l Hn Hd. apply nth_error_In, in_map_iff in Hn. destruct Hn as (x & <- & _). discriminate.
+  - discriminate.
+  - contradiction.
+  - intros k s l Hn Hd. apply nth_error_In, in_map_iff in Hn. destruct Hn as (x & <- & _).
+    destruct Hd; discriminate.
+Qed.
+
+(* the sd entry k after the step, in terms of the one before *)
+Lemma step_sd_at st l st' k s' :
+  step st l = Some st' -> nth_error (sds st') k = Some s' ->
+  (nth_error (sds st) k = Some s' /\ sd_of l <> Some k) \/
+  (sd_of l = Some k /\ exists s, nth_error (sds st) k = Some s /\ sd_trans st l s s').
+Proof.
+  intros H Hn. apply step_globals in H. destruct H as (_ & H). destruct (sd_of l) as [k0|].
+  - destruct H as (s & s0 & Hs & Hss & Ht). rewrite Hss, (nth_set_nth _ _ _ _ _ Hs) in Hn.
+    destruct (Nat.eqb_spec k k0).
+    + subst. inversion Hn; subst. right. split; auto. eauto.
+    + left. split; auto. congruence.
+  - rewrite H in Hn. left. split; auto. discriminate.
+Qed.
+
+Lemma step_job_at st l st' i jb' :
+  step st l = Some st' -> nth_error (jobs st') i = Some jb' ->
+  (nth_error (jobs st) i = Some jb' /\ job_of l <> Some i) \/
+  (job_of l = Some i /\ exists jb, nth_error (jobs st) i = Some jb /\ job_trans (flag st) l jb jb').
+Proof.
+  intros H Hn. apply step_jobs in H. destruct (job_of l) as [i0|].
+  - destruct H as (jb & jb0 & Hs & Hss & Ht). rewrite Hss, (nth_set_nth _ _ _ _ _ Hs) in Hn.
+    destruct (Nat.eqb_spec i i0).
+    + subst. inversion Hn; subst. right. split; auto. eauto.
+    + left. split; auto. congruence.
+  - rewrite H in Hn. left. split; auto. discriminate.
+Qed.
+
+Lemma step_ginv st l st' : ginv st -> step st l = Some st' -> ginv st'.
+Proof.
+  intros G H.
+  pose proof (step_lock _ _ _ H) as HL.
+  pose proof (step_globals _ _ _ H) as (HR & _).
+  pose proof (step_jobs _ _ _ H) as HJ.
+  constructor.
+  - eapply step_ok; eauto. apply G.
+  - (* g_hold *)
+    intros i jb' Hn Hh. destruct (step_job_at _ _ _ _ _ H Hn) as [(Ho & Hne) | (Hje & jb & Ho & Ht)].
+    + pose proof (g_hold _ G _ _ Ho Hh) as Hl.
+      destruct l; simpl in *; try congruence.
+      * destruct HL; congruence.
+      * (* release by another job j: it held the lock too *)
+        destruct HJ as (jb0 & jb1 & Hn0 & _ & Hs & _).
+        assert (Hh0 : holding (spc jb0) = true) by (rewrite Hs; reflexivity).
+        pose proof (g_hold _ G _ _ Hn0 Hh0). assert (i = j) by congruence. congruence.
+      * destruct HL; congruence.
+      * destruct HL as (s & Hs & [(Hd & _) | (_ & Hl')]); [|congruence].
+        pose proof (g_canc _ G _ _ _ Hs Hd). congruence.
+    + destruct (job_trans_spc _ _ _ _ Ht) as (_ & Hh' & Hx).
+      destruct l; simpl in *; try discriminate; inversion Hje; subst;
+        try (rewrite Hh' in Hh; rewrite HL; eapply g_hold; eauto; fail).
+      * destruct HL; auto.
+      * rewrite Hh' in Hh. discriminate.
+  - (* g_sub *)
+    intros i Hl.
+    assert (Hcase : (lock st = Some (OSub i) /\ l <> LSubRelease i) \/ l = LSubAcquire i).
+    { destruct l; simpl in *; try (left; split; [congruence|discriminate]).
+      - destruct HL as (_ & HL). right. congruence.
+      - congruence.
+      - destruct HL; congruence.
+      - destruct HL as (s & _ & [(_ & Hx) | (_ & Hx)]); [congruence|]. left; split; [congruence|discriminate]. }
+    destruct Hcase as [(Hl0 & Hnr) | ->].
+    + destruct (g_sub _ G _ Hl0) as (jb & Hn & Hh).
+      pose proof (step_jobs _ _ _ H) as Hj. destruct (job_of l) as [i0|] eqn:Ej.
+      * destruct Hj as (jb0 & jb1 & Hn0 & Hjs & Ht). rewrite Hjs, (nth_set_nth _ _ _ _ _ Hn0).
+        destruct (Nat.eqb_spec i i0); eauto. subst i0. rewrite Hn in Hn0; inversion Hn0; subst jb0.
+        eexists; split; eauto. destruct (job_trans_spc _ _ _ _ Ht) as (_ & Hh' & _). rewrite Hh'.
+        destruct l; simpl in *; try discriminate; auto. inversion Ej; subst. congruence.
+      * rewrite Hj; eauto.
+    + pose proof (step_jobs _ _ _ H) as Hj. simpl in Hj. destruct Hj as (jb0 & jb1 & Hn0 & Hjs & Hs & ->).
+      rewrite Hjs, nth_set_nth_eq; [|apply nth_error_Some; congruence]. eexists; split; eauto.
+  - (* g_canc *)
+    intros k s' pl Hn Hd. destruct (step_sd_at _ _ _ _ _ H Hn) as [(Ho & Hne) | (Hke & s & Ho & Ht)].
+    + pose proof (g_canc _ G _ _ _ Ho Hd) as Hl.
+      destruct l; simpl in *; try congruence.
+      * destruct HL; congruence.
+      * destruct HJ as (jb0 & jb1 & Hn0 & _ & Hs & _).
+        assert (Hh0 : holding (spc jb0) = true) by (rewrite Hs; reflexivity).
+        pose proof (g_hold _ G _ _ Hn0 Hh0). congruence.
+      * destruct HL; congruence.
+      * destruct HL as (s0 & Hs0 & [(Hd0 & _) | (_ & Hl')]); [|congruence].
+        pose proof (g_canc _ G _ _ _ Hs0 Hd0). assert (k = k0) by congruence. congruence.
+    + destruct Ht as (_ & Ht). destruct l; simpl in *; try discriminate; inversion Hke; subst.
+      * destruct Ht as (_ & Hd'). rewrite Hd in Hd'. destruct (swait s); discriminate.
+      * destruct HL; auto.
+      * destruct Ht as (p0 & p1 & Hd0 & _ & _). rewrite HL. eapply g_canc; eauto.
+      * destruct Ht as (_ & Hd'). congruence.
+      * destruct Ht as (? & ? & _ & _ & _ & Hd'). congruence.
+      * destruct Ht as (? & ? & _ & _ & _ & Hd'). congruence.
+      * destruct Ht as (_ & Hd'). congruence.
+  - (* g_sd *)
+    intros k Hl.
+    assert (Hcase : (lock st = Some (OSd k) /\ l <> LSdReturn k) \/ l = LSdAcquire k).
+    { destruct l; simpl in *; try (left; split; [congruence|discriminate]).
+      - destruct HL; congruence.
+      - destruct HL as (_ & HL). right. congruence.
+      - destruct HL as (s & Hs & [(_ & Hx) | (Hd & Hx)]); [congruence|].
+        left. split; [congruence|]. intros He. inversion He; subst.
+        destruct (g_sd _ G k) as (s1 & l1 & Hs1 & Hd1); congruence. }
+    destruct Hcase as [(Hl0 & Hnr) | ->].
+    + destruct (g_sd _ G _ Hl0) as (s & pl & Hn & Hd).
+      pose proof (step_globals _ _ _ H) as (_ & Hs). destruct (sd_of l) as [k0|] eqn:Ek.
+      * destruct Hs as (s0 & s1 & Hn0 & Hss & Ht). rewrite Hss, (nth_set_nth _ _ _ _ _ Hn0).
+        destruct (Nat.eqb_spec k k0); eauto. subst k0. rewrite Hn in Hn0; inversion Hn0; subst s0.
+        destruct Ht as (_ & Ht). destruct l; simpl in *; try discriminate; inversion Ek; subst;
+          try (destruct Ht as (Hd0 & _); congruence);
+          try (destruct Ht as (? & ? & Hd0 & _); congruence).
+        -- destruct Ht as (p0 & p1 & _ & _ & Hd1). eauto.
+      * rewrite Hs; eauto.
+    + pose proof (step_globals _ _ _ H) as (_ & Hs). simpl in Hs.
+      destruct Hs as (s0 & s1 & Hn0 & Hss & _ & _ & Hd1).
+      rewrite Hss, nth_set_nth_eq; [|apply nth_error_Some; congruence]. eauto.
+  - (* g_reg *)
+    intros j Hin. rewrite HR in Hin.
+    assert (Hold : In j (reg st) \/ l = LSubAppend j).
+    { destruct l; auto. apply in_app_or in Hin. destruct Hin as [|[->|[]]]; auto. }
+    destruct Hold as [Hold | ->].
+    + eapply registered_step; eauto. eapply g_reg; eauto.
+    + pose proof (step_jobs _ _ _ H) as Hj. simpl in Hj. destruct Hj as (jb0 & jb1 & Hn0 & Hjs & Hs & ->).
+      exists (set_spc jb0 SStart). split; [|reflexivity].
+      rewrite Hjs, nth_set_nth_eq; auto. apply nth_error_Some; congruence.
+  - (* g_pend *)
+    intros k s' pl Hn Hd j Hin.
+    destruct (step_sd_at _ _ _ _ _ H Hn) as [(Ho & Hne) | (Hke & s & Ho & Ht)].
+    + eapply registered_step; eauto. eapply g_pend; eauto.
+    + eapply registered_step; eauto. destruct Ht as (_ & Ht).
+      destruct l; simpl in *; try discriminate; inversion Hke; subst.
+      * destruct Ht as (_ & Hd'). rewrite Hd' in Hd. destruct (swait s); destruct Hd; discriminate.
+      * destruct Ht as (_ & Hd'). rewrite Hd' in Hd. destruct Hd as [Hd|Hd]; inversion Hd; subst.
+        eapply g_reg; eauto.
+      * destruct Ht as (p0 & p1 & Hd0 & Hr & Hd'). rewrite Hd' in Hd. destruct Hd as [Hd|Hd]; inversion Hd; subst.
+        eapply g_pend; eauto. eapply remove1_In; eauto.
+      * destruct Ht as (_ & Hd'). rewrite Hd' in Hd. destruct Hd as [Hd|Hd]; inversion Hd; subst.
+        eapply g_reg; eauto.
+      * destruct Ht as (j0 & rest & Hd0 & _ & _ & Hd'). rewrite Hd' in Hd. destruct Hd as [Hd|Hd]; inversion Hd; subst.
+        eapply g_pend; eauto. simpl; auto.
+      * destruct Ht as (j0 & rest & Hd0 & _ & _ & Hd'). rewrite Hd' in Hd. destruct Hd; discriminate.
+      * destruct Ht as (_ & Hd'). rewrite Hd' in Hd. destruct Hd; discriminate.
+Qed.
+
+Lemma run_ginv sched : forall st st', ginv st -> run st sched = Some st' -> ginv st'.
+Proof.
+  induction sched; simpl; intros st st' G H.
+  - inversion H; subst; auto.
+  - destruct (step st a) eqn:E; try discriminate. eapply IHsched; [|eauto]. eapply step_ginv; eauto.
+Qed.
+
+(* ------------------------------------------------------------------ progress: no reachable state is stuck while a thread is unfinished *)
+
+Definition job_final (jb : job) : Prop :=
+  match spc jb with SGot _ | SRejected => True | _ => False end.
+Definition sd_final (s : sd) : Prop :=
+  match dpc s with DDone | DRaised => True | _ => False end.
+
+Definition can_step (st : state) : Prop := exists l st', step st l = Some st'.
+
+Ltac fire l := exists l; unfold step, on_job, on_sd; simpl.
+
+Lemma holder_moves st : ginv st -> lock st <> None -> can_step st.
+Proof.
+  intros G Hl. destruct (lock st) as [[i|k]|] eqn:El; [| |congruence].
+  - destruct (g_sub _ G _ El) as (jb & Hn & Hh).
+    pose proof (Forall_nth _ _ _ _ (g_jobs _ G) Hn) as Hok.
+    destruct (spc jb) eqn:Es; try discriminate.
+    + fire (LSubAppend i). rewrite Hn, Es. eauto.
+    + assert (Hw : wpc jb = WNew).
+      { unfold job_ok, started_spc in Hok. rewrite Es in Hok.
+        destruct (wpc jb); auto; intuition (try congruence; try discriminate). }
+      fire (LSubStart i). rewrite Hn, Es, Hw. eauto.
+    + fire (LSubRelease i). rewrite Hn, Es. eauto.
+  - destruct (g_sd _ G _ El) as (s & pl & Hn & Hd). destruct pl as [|j r].
+    + fire (LSdReturn k). rewrite Hn, Hd. eauto.
+    + destruct (g_pend _ G _ _ _ Hn (or_introl Hd) j (or_introl eq_refl)) as (jb & Hj & _).
+      fire (LSdCancel k j). rewrite Hn, Hd. simpl. rewrite Nat.eqb_refl, Hj. eauto.
+Qed.
+
+Lemma worker_moves st j jb :
+  nth_error (jobs st) j = Some jb -> wpc jb <> WNew -> wpc jb <> WDone -> can_step st.
+Proof.
+  intros Hn H1 H2. destruct (wpc jb) eqn:Ew; try congruence.
+  - fire (LPopen j true). rewrite Hn, Ew. eauto.
+  - fire (LCommExc j). rewrite Hn, Ew. eauto.
+  - fire (LFinally j). rewrite Hn, Ew. eauto.
+  - fire (LSetResult j). rewrite Hn, Ew. eauto.
+Qed.
+
+Lemma job_moves st j jb :
+  ginv st -> nth_error (jobs st) j = Some jb -> ~ job_final jb -> can_step st.
+Proof.
+  intros G Hn Hf. pose proof (Forall_nth _ _ _ _ (g_jobs _ G) Hn) as Hok.
+  unfold job_final in Hf. destruct (spc jb) eqn:Es; try (exfalso; apply Hf; exact I).
+  - fire (LSubCheck j). rewrite Hn, Es. eauto.
+  - destruct (lock st) eqn:El.
+    + apply holder_moves; auto. congruence.
+    + fire (LSubAcquire j). rewrite El. simpl. rewrite Hn, Es. eauto.
+  - fire (LSubAppend j). rewrite Hn, Es. eauto.
+  - assert (Hw : wpc jb = WNew).
+    { unfold job_ok, started_spc in Hok. rewrite Es in Hok.
+      destruct (wpc jb); auto; intuition (try congruence; try discriminate). }
+    fire (LSubStart j). rewrite Hn, Es, Hw. eauto.
+  - fire (LSubRelease j). rewrite Hn, Es. eauto.
+  - destruct (wpc jb) eqn:Ew.
+    + exfalso. unfold job_ok in Hok. rewrite Ew, Es in Hok. intuition congruence.
+    + eapply worker_moves; eauto; congruence.
+    + eapply worker_moves; eauto; congruence.
+    + eapply worker_moves; eauto; congruence.
+    + eapply worker_moves; eauto; congruence.
+    + assert (Hs : sets jb = 1) by (unfold job_ok in Hok; rewrite Ew in Hok; intuition).
+      fire (LSubWait j). rewrite Hn, Es, Hs. simpl. eauto.
+Qed.
+
+Lemma sd_moves st k s :
+  ginv st -> nth_error (sds st) k = Some s -> ~ sd_final s -> can_step st.
+Proof.
+  intros G Hn Hf. unfold sd_final in Hf. destruct (dpc s) eqn:Ed; try (exfalso; apply Hf; exact I).
+  - fire (LSdSet k). rewrite Hn, Ed. eauto.
+  - destruct (lock st) eqn:El.
+    + apply holder_moves; auto. congruence.
+    + fire (LSdAcquire k). rewrite El. simpl. rewrite Hn, Ed. eauto.
+  - apply holder_moves; auto. rewrite (g_canc _ G _ _ _ Hn Ed). discriminate.
+  - fire (LSdSnap k). rewrite Hn, Ed. eauto.
+  - destruct pending as [|j r].
+    + fire (LSdReturn k). rewrite Hn, Ed. eauto.
+    + destruct (g_pend _ G _ _ _ Hn (or_intror Ed) j (or_introl eq_refl)) as (jb & Hj & Hp).
+      pose proof (Forall_nth _ _ _ _ (g_jobs _ G) Hj) as Hok.
+      destruct (spc jb) eqn:Es; try discriminate;
+        try (eapply job_moves; eauto; unfold job_final; rewrite Es; auto; fail).
+      assert (Hs : sets jb = 1).
+      { unfold job_ok, started_spc in Hok. rewrite Es in Hok.
+        destruct (wpc jb); intuition (try congruence; try discriminate). }
+      destruct (exc jb) eqn:Ee.
+      * fire (LSdRaise k). rewrite Hn, Ed. unfold finished, failed. rewrite Hj, Hs, Ee. simpl. eauto.
+      * fire (LSdJoin k). rewrite Hn, Ed. unfold finished, failed. rewrite Hj, Hs, Ee. simpl. eauto.
+Qed.
+
+Definition reachable (tmos waits : list bool) (st : state) : Prop :=
+  exists sched, run (init tmos waits) sched = Some st.
+
+Lemma reachable_ginv tmos waits st : reachable tmos waits st -> ginv st.
+Proof. intros (sched & H). eapply run_ginv; [|eauto]. apply init_ginv. Qed.
+
+(* deadlock-freedom *)
+Lemma no_deadlock tmos waits st :
+  reachable tmos waits st ->
+  (exists j jb, nth_error (jobs st) j = Some jb /\ ~ job_final jb) \/
+  (exists k s, nth_error (sds st) k = Some s /\ ~ sd_final s) ->
+  exists l st', step st l = Some st'.
+Proof.
+  intros R [(j & jb & Hn & Hf) | (k & s & Hn & Hf)]; apply reachable_ginv in R.
+  - eapply job_moves; eauto.
+  - eapply sd_moves; eauto.
+Qed.
+
+(* in a quiescent state every submit() call has been rejected or its waiter has its result,
+   delivered exactly once; no process runs under a finished job; every shutdown() call ended *)
+Lemma quiescent_exactly_once tmos waits sched st :
+  run (init tmos waits) sched = Some st -> (forall l, step st l = None) ->
+  (forall j jb, nth_error (jobs st) j = Some jb ->
+     (spc jb = SRejected /\ wpc jb = WNew /\ deliveries j sched = 0 /\ proc jb = PNone) \/
+     (spc jb = SGot (low_level jb) /\ wpc jb = WDone /\ deliveries j sched = 1 /\ proc jb <> PRun)) /\
+  (forall k s, nth_error (sds st) k = Some s -> dpc s = DDone \/ dpc s = DRaised).
+Proof.
+  intros Hrun Hq.
+  assert (G : ginv st) by (eapply run_ginv; [apply init_ginv|eauto]).
+  assert (Hstuck : ~ can_step st).
+  { intros (l & st' & Hs). rewrite Hq in Hs. discriminate. }
+  split.
+  - intros j jb Hn.
+    pose proof (Forall_nth _ _ _ _ (g_jobs _ G) Hn) as Hok.
+    pose proof (run_sets _ _ _ j Hrun) as Hs. rewrite init_sets in Hs.
+    unfold sets_of in Hs. rewrite Hn in Hs. simpl in Hs.
+    destruct (spc jb) eqn:Es;
+      try (exfalso; apply Hstuck; eapply job_moves; eauto; unfold job_final; rewrite Es; auto; fail).
+    + right. unfold job_ok, started_spc in Hok. rewrite Es in Hok.
+      destruct (wpc jb); try (exfalso; intuition (try congruence; try discriminate); fail).
+      destruct Hok as (Hp & Hse & [[Hc|Hc]|Hc] & _); try discriminate.
+      inversion Hc. repeat split; auto; try congruence; try lia.
+    + left. unfold job_ok, started_spc in Hok. rewrite Es in Hok.
+      destruct (wpc jb); try (exfalso; intuition (try congruence; try discriminate); fail).
+      destruct Hok as (Hp & _ & _ & Hse & _). repeat split; auto; try lia.
+  - intros k s Hn. destruct (dpc s) eqn:Ed; auto;
+      exfalso; apply Hstuck; eapply sd_moves; eauto; unfold sd_final; rewrite Ed; auto.
+Qed.
+
+(* every schedule can be extended to a quiescent state: maximal schedules exist and are
+   reached after at most rank-many further steps (uses decidability of enabledness through
+   the finite label enumeration) *)
+Lemma enabled_sound st l : In l (enabled st) -> exists st', step st l = Some st'.
+Proof.
+  unfold enabled. intros H. apply filter_In in H. destruct H as (_ & H).
+  destruct (step st l); [eauto|discriminate].
+Qed.
+
+Lemma extend_to_stuck n : forall st, rank st <= n ->
+  exists ext st', run st ext = Some st' /\ enabled st' = [].
+Proof.
+  induction n; intros st Hr.
+  - destruct (enabled st) as [|l r] eqn:E.
+    + exists [], st. auto.
+    + destruct (enabled_sound st l) as (st' & Hs); [rewrite E; simpl; auto|].
+      apply step_rank in Hs. lia.
+  - destruct (enabled st) as [|l r] eqn:E.
+    + exists [], st. auto.
+    + destruct (enabled_sound st l) as (st' & Hs); [rewrite E; simpl; auto|].
+      pose proof (step_rank _ _ _ Hs). destruct (IHn st') as (ext & st'' & Hrun & He); [lia|].
+      exists (l :: ext), st''. simpl. rewrite Hs. auto.
+Qed.
+
+Lemma all_labels_complete st l st' : step st l = Some st' -> In l (all_labels st).
+Proof.
+  intros H. pose proof (step_jobs _ _ _ H) as HJ. pose proof (step_globals _ _ _ H) as (_ & HG).
+  unfold all_labels.
+  destruct l; simpl in HJ, HG;
+    try (destruct HJ as (jb & jb' & Hn & _);
+         apply in_or_app; left; apply in_flat_map; exists j; split;
+         [apply in_seq; split; [lia|]; simpl; apply nth_error_Some; congruence|];
+         try (destruct ok); try (destruct a); simpl; auto 20; fail);
+    try (destruct HG as (s & s' & Hn & _);
+         apply in_or_app; right; apply in_flat_map; exists k; split;
+         [apply in_seq; split; [lia|]; simpl; apply nth_error_Some; congruence|];
+         simpl; auto 20; fail).
+  (* LSdCancel k j *)
+  destruct HJ as (jb & jb' & Hnj & _). destruct HG as (s & s' & Hn & _).
+  apply in_or_app; right; apply in_flat_map; exists k; split.
+  - apply in_seq; split; [lia|]; simpl; apply nth_error_Some; congruence.
+  - apply in_or_app; right. apply in_map. apply in_seq; split; [lia|]; simpl; apply nth_error_Some; congruence.
+Qed.
+
+Lemma enabled_nil_quiescent st : enabled st = [] -> forall l, step st l = None.
+Proof.
+  intros He l. destruct (step st l) eqn:E; auto.
+  assert (Hin : In l (enabled st)).
+  { unfold enabled. apply filter_In. split; [eapply all_labels_complete; eauto|]. rewrite E. reflexivity. }
+  rewrite He in Hin. contradiction.
+Qed.
+
+(* every schedule can be extended to a maximal one, which ends quiescent *)
+Lemma extends_to_quiescent st :
+  exists ext st', run st ext = Some st' /\ forall l, step st' l = None.
+Proof.
+  destruct (extend_to_stuck (rank st) st (le_n _)) as (ext & st' & Hr & He).
+  exists ext, st'. split; auto. apply enabled_nil_quiescent; auto.
+Qed.
+
+Lemma no_deadlock_run tmos waits sched st :
+  run (init tmos waits) sched = Some st ->
+  (exists j jb, nth_error (jobs st) j = Some jb /\ spc jb <> SRejected /\ (forall v, spc jb <> SGot v)) \/
+  (exists k s, nth_error (sds st) k = Some s /\ dpc s <> DDone /\ dpc s <> DRaised) ->
+  exists l st', step st l = Some st'.
+Proof.
+  intros Hrun Hc. apply (no_deadlock tmos waits); [exists sched; auto|].
+  destruct Hc as [(j & jb & Hn & H1 & H2) | (k & s & Hn & H1 & H2)]; [left|right].
+  - exists j, jb. split; auto. unfold job_final. destruct (spc jb); auto; try congruence.
+  - exists k, s. split; auto. unfold sd_final. destruct (dpc s); auto; congruence.
+Qed.
+
+Lemma wait_returns tmos waits sched st :
+  run (init tmos waits) sched = Some st ->
+  exists ext st',
+    run (init tmos waits) (sched ++ ext) = Some st' /\ (forall l, step st' l = None) /\
+    (forall j jb, nth_error (jobs st') j = Some jb ->
+       (spc jb = SRejected /\ deliveries j (sched ++ ext) = 0) \/
+       (spc jb = SGot (low_level jb) /\ deliveries j (sched ++ ext) = 1)) /\
+    (forall k s, nth_error (sds st') k = Some s -> dpc s = DDone \/ dpc s = DRaised).
+Proof.
+  intros Hrun. destruct (extends_to_quiescent st) as (ext & st' & He & Hq).
+  exists ext, st'.
+  assert (Hr : run (init tmos waits) (sched ++ ext) = Some st') by (rewrite run_app, Hrun; auto).
+  destruct (quiescent_exactly_once _ _ _ _ Hr Hq) as (Hj & Hs).
+  repeat split; auto.
+  intros j jb Hn. destruct (Hj j jb Hn) as [(A & _ & B & _) | (A & _ & B & _)]; auto.
+Qed.
+
 (* ------------------------------------------------------------------ statements in the form used by Props/C17.v *)
 
 Lemma timeout_unknown_spec tmos waits sched st j jb :
